@@ -14,7 +14,7 @@ VARIABLES b, hist
 vars == <<b, hist>>
 view == b
 
-Vals == {1, 2, 3}
+Vals == {0, 1, 2}     \* 0 is the default value the implementation keeps in its dead cells
 Mutators == {[m |-> "push", args |-> <<x>>] : x \in Vals} \cup {[m |-> "push_force", args |-> <<x>>] : x \in Vals}
             \cup {[m |-> "pop", args |-> <<>>], [m |-> "flush", args |-> <<>>]}
 Observers == {[m |-> m, args |-> <<>>] : m \in {"capacity", "size", "is_empty", "is_full", "peek_oldest", "copy_oldest",
